@@ -49,5 +49,7 @@ MCProgs(st) ==
     << Op("NR"), Rd(1), Rd(4096), Rd(4096), Rd(4096), Op("RM"), Op("RM") >>,
     << Op("NR"), Rd(512), Rd(512), Rd(512), Op("NR"), Op("RA") >>,
     << Op("NR"), Rd(4096), Op("SRD"), Rd(4096), Op("SRD"), Op("RM"), Op("SRD"), Op("RM") >>,
-    << Op("RM"), Op("SRD"), Op("RM"), Op("SRD"), Op("RM") >> }
+    << Op("RM"), Op("SRD"), Op("RM"), Op("SRD"), Op("RM") >>,
+    \* JoinMessages: the joined stream ends with an error, never silently
+    << Ja(0), Op("NR") >>, << Ja(2), Op("NR") >>, << Op("RM"), Ja(1), Op("NR") >> }
 =============================================================================
